@@ -786,9 +786,40 @@ func c09_7(c *core.Ctx, p *core.Prog) {
 		}
 		return false
 	}
+	// the body of the timer arm moved into a helper (`case <-timerCh: b.onTimeout()`): its re-arm is the tick's own
+	timerArmOnly := map[*ssa.Function]bool{}
+	{
+		tk := -1
+		for k, st := range m.mainSelect.States {
+			if st.Dir == types.RecvOnly && core.TypePkgPath(chanElem(st.Chan.Type())) == "time" {
+				tk = k
+			}
+		}
+		if arm, ok := selectArm(m.mainSelect, tk); ok && tk >= 0 {
+			sitesIn, sitesOut := map[*ssa.Function]int{}, map[*ssa.Function]int{}
+			for _, f := range cbpFuncs(c, p) {
+				core.EachInstr(f, func(i ssa.Instruction) {
+					cl, ok := i.(*ssa.Call)
+					if !ok || cl.Call.StaticCallee() == nil || core.FnPkgPath(cl.Call.StaticCallee()) != core.CBPPath {
+						return
+					}
+					if f == m.loopFn && core.EdgeGuards(f, arm, cl) {
+						sitesIn[cl.Call.StaticCallee()]++
+					} else {
+						sitesOut[cl.Call.StaticCallee()]++
+					}
+				})
+			}
+			for h, k := range sitesIn {
+				if k > 0 && sitesOut[h] == 0 {
+					timerArmOnly[h] = true
+				}
+			}
+		}
+	}
 	n := 0
 	for _, f := range cbpFuncs(c, p) {
-		if f == m.loopFn || f.Parent() != nil || !sends(f, 0) && !containsDirectCallTo(f, isReset) {
+		if f == m.loopFn || f.Parent() != nil || timerArmOnly[f] || !sends(f, 0) && !containsDirectCallTo(f, isReset) {
 			continue
 		}
 		// reset wrappers themselves (no send capability, only timer operations) are not arrival paths
@@ -898,4 +929,56 @@ func flushesNonEmpty(a *cbpAnchors, i ssa.Instruction) bool {
 		return false
 	}
 	return nonEmptyFlushHelper(a, cl.Call.StaticCallee())
+}
+
+var itemHandlerMemo = map[*ssa.Function]int{}
+
+// nilDataCut: the edges taken when the request carries no data (`item.data == nil`).
+func nilDataCut(f *ssa.Function) map[core.Edge]bool {
+	cut := map[core.Edge]bool{}
+	for _, b := range f.Blocks {
+		iff := core.IfOf(b)
+		if iff == nil {
+			continue
+		}
+		cmp, ok := iff.Cond.(*ssa.BinOp)
+		if !ok || (cmp.Op != token.EQL && cmp.Op != token.NEQ) || !core.IsNilConst(cmp.Y) || !isAny(cmp.X.Type()) {
+			continue
+		}
+		if cmp.Op == token.EQL {
+			cut[core.Edge{From: b, To: b.Succs[0]}] = true
+		} else {
+			cut[core.Edge{From: b, To: b.Succs[1]}] = true
+		}
+	}
+	return cut
+}
+
+// handlesItem: the instruction hands a request to the item handler — a call of it, or of a package helper every
+// path of which does unless the request carries no data (`case item := <-b.newItem: b.onNewItem(item)`).
+func handlesItem(m *cbpMore, i ssa.Instruction) bool {
+	if isCallTo(i, m.processFn) {
+		return true
+	}
+	cl, ok := i.(*ssa.Call)
+	if !ok {
+		return false
+	}
+	h := cl.Call.StaticCallee()
+	if h == nil || h == m.processFn || len(h.Blocks) == 0 || core.FnPkgPath(h) != core.CBPPath {
+		return false
+	}
+	switch itemHandlerMemo[h] {
+	case 1:
+		return false
+	case 2:
+		return true
+	}
+	itemHandlerMemo[h] = 1
+	miss, _ := (core.PathQuery{Fn: h, CutEdges: nilDataCut(h), ExitReturnOnly: true, Avoid: func(j ssa.Instruction) bool { return handlesItem(m, j) }}).Exists()
+	if miss {
+		return false
+	}
+	itemHandlerMemo[h] = 2
+	return true
 }
